@@ -1,7 +1,7 @@
 """Obligations on src/filter/bloom.rs — C17 / C10 (fixed hasher keys)."""
 import re
 import z3
-from .symex import State, Sym, Obj, VecV, Ref, Unsupported
+from .symex import State, Sym, Obj, VecV, Ref, Unsupported, fresh_name
 from . import pearl as P
 from . import summaries as S
 from .pearl import BV64
@@ -202,3 +202,125 @@ def bloom_bits_agree(crate, H=2):
     r = P.finish(ex, res, ["add with all hashers", "absent decided by the last hasher", "absent decided by the last byte read"])
     r.queries, r.solver_s = total_q, total_s
     return r
+
+
+def bloom_ctor_invariant(crate):
+    """C10: the representation invariant bloom_bits_agree assumes - Bloom.bits_count (what add / contains_in_memory /
+    contains_in_file reduce the hash by) equals the length of the bit vector - is established by every constructor:
+    Bloom::from(Save) (read back from an index file) and Bloom::new_from_shared_config; and Bloom::save writes the bit
+    vector's own length, so a saved and re-read filter probes the same bit positions as the one that was filled."""
+    res = P.ObResult("bloom_ctor_invariant")
+    res.functions = ["Bloom::from(Save)", "Bloom::new_from_shared_config", "Bloom::save"]
+    res.bounds = "one call each; AtomicBitVec::{new,from_raw_slice} summarised as 'length = the requested bit count' (K harnesses on atomic_bitvec), arbitrary counts"
+    ex = P.mk_executor(crate, cap=2, loop_bound=3, inline=[],
+                       havoc=[r"^Bloom::hashers$", r"^bloom::bits_count_from_formula$|^bits_count_from_formula$", r"^<.* as Clone>::clone$",
+                              r"^<Vec<u64> as Deref>::deref$", r"^AtomicBitVec::to_raw_vec$", r"^<std::sync::Arc as AsRef<.*>>::as_ref$", r"^(std::sync::)?Arc(::<.*>)?::new$"])
+
+    def call_hook(ex_, st_, cname, args, dty):
+        if cname in ("AtomicBitVec::from_raw_slice", "AtomicBitVec::new"):
+            n = args[-1]
+            bv = Obj("filter::atomic_bitvec::AtomicBitVec")
+            bv.fields[("g", "len")] = Sym(n.t, "usize")
+            st_.events.append(("call", cname, args, bv))
+            if cname.endswith("new"):
+                return [(bv, None)]
+            r = Obj(dty)
+            r.discr = Sym(z3.If(z3.Bool(fresh_name("raw_ok")), BV64(0), BV64(1)), "isize")
+            r.fields[("Ok", 0)] = bv
+            return [(r, None)]
+        if cname in ("AtomicBitVec::len", "AtomicBitVec::size_in_mem"):
+            v = S.deref_val(ex_, st_, args[0])
+            g = v.fields.get(("g", "len"))
+            if g is None:
+                raise Unsupported("bit vector without ghost length")
+            if cname.endswith("size_in_mem"):        # whole u64 words, in bytes
+                return [(Sym(z3.UDiv(g.t + BV64(63), BV64(64)) * BV64(8), "usize"), None)]
+            return [(Sym(g.t, "usize"), None)]
+        return None
+    ex.call_hook = call_hook
+    bi, ii = crate.field_index("Bloom", "bits_count"), crate.field_index("Bloom", "inner")
+
+    def inv(o, bloom, what):
+        inner = bloom.fields.get((None, ii))
+        bc = bloom.fields.get((None, bi))
+        if not isinstance(inner, Obj) or bc is None:
+            res.status = "violated"; res.detail = "%s: fields not initialised" % what; return False
+        if not P.prove(ex, res, o, ex.get_discr(o, inner).t == BV64(1), "%s: buffer present" % what):
+            return False
+        bv = inner.fields.get(("Some", 0))
+        g = bv.fields.get(("g", "len")) if isinstance(bv, Obj) else None
+        if g is None:
+            res.status = "violated"; res.detail = "%s: bit vector not built by AtomicBitVec::new/from_raw_slice" % what; return False
+        return P.prove(ex, res, o, bc.t == g.t, "%s: bits_count == length of the bit vector" % what)
+
+    # --- Bloom::from(Save)
+    st = State()
+    save = Obj("filter::bloom::Save")
+    sb = z3.BitVec("saved_bits_count", 64)
+    st.pc.append(z3.ULT(sb, BV64(1 << 48)))
+    save.fields[(None, crate.field_index("Save", "bits_count"))] = Sym(sb, "usize")
+    fn = crate.find(r"bloom::<impl at src/filter/bloom\.rs[^>]*>::from$")
+    from . import mirparse as MP
+    MP.parse_body(fn)
+    ex.push_frame(st, fn, [save], None, None)
+    for o in ex.run(st):
+        if o.status in ("infeasible", "unwind"):
+            continue
+        res.paths += 1
+        if o.status != "returned":
+            if not P.prove(ex, res, o, z3.BoolVal(False), "no panic in from (%s)" % o.note):
+                return P.finish(ex, res, [])
+            continue
+        isok = ex.get_discr(o, o.result).t == BV64(0)
+        if ex.feasible(o, isok):
+            bl = o.result.fields.get(("Ok", 0))
+            if not isinstance(bl, Obj) or not inv(o, bl, "from(Save)"):
+                return P.finish(ex, res, [])
+            if not P.prove(ex, res, o, z3.Implies(isok, bl.fields[(None, bi)].t == sb), "from(Save): the saved bit count is kept"):
+                return P.finish(ex, res, [])
+            P.cover(ex, res, o, z3.And(isok, z3.URem(sb, BV64(64)) != BV64(0)), "read back, bit count not a multiple of 64")
+        else:
+            P.cover(ex, res, o, z3.Not(isok), "buffer rejected")
+    # --- Bloom::new_from_shared_config
+    st = State()
+    fn = crate.method("Bloom", "new_from_shared_config")
+    MP.parse_body(fn)
+    cfg = Ref(st.new_cell(Obj("filter::bloom::Config")), (), False, "std::sync::Arc<filter::bloom::Config>")
+    ex.push_frame(st, fn, [cfg], None, None)
+    for o in ex.run(st):
+        if o.status in ("infeasible", "unwind"):
+            continue
+        res.paths += 1
+        if o.status != "returned":
+            if not P.prove(ex, res, o, z3.BoolVal(False), "no panic in new (%s)" % o.note):
+                return P.finish(ex, res, [])
+            continue
+        if not inv(o, o.result, "new"):
+            return P.finish(ex, res, [])
+        P.cover(ex, res, o, z3.BoolVal(True), "created")
+    # --- Bloom::save
+    st = State()
+    fn = crate.method("Bloom", "save")
+    MP.parse_body(fn)
+    b, n, nh = _bloom_state(crate, st, 1)
+    ln = z3.BitVec("vector_len", 64)
+    b.fields[(None, ii)].fields[("Some", 0)].fields[("g", "len")] = Sym(ln, "usize")
+    bc = st.new_cell(b)
+    ex.push_frame(st, fn, [Ref(bc, (), False, "&filter::bloom::Bloom")], None, None)
+    for o in ex.run(st):
+        if o.status in ("infeasible", "unwind"):
+            continue
+        res.paths += 1
+        if o.status != "returned":
+            if not P.prove(ex, res, o, z3.BoolVal(False), "no panic in save (%s)" % o.note):
+                return P.finish(ex, res, [])
+            continue
+        r = o.result
+        some = ex.get_discr(o, r).t == BV64(1)
+        sv = r.fields.get(("Some", 0))
+        if isinstance(sv, Obj):
+            v = sv.fields.get((None, crate.field_index("Save", "bits_count")))
+            if v is None or not P.prove(ex, res, o, z3.Implies(some, v.t == ln), "save: writes the bit vector's own length"):
+                return P.finish(ex, res, [])
+            P.cover(ex, res, o, some, "saved")
+    return P.finish(ex, res, ["read back, bit count not a multiple of 64", "buffer rejected", "created", "saved"])
